@@ -1287,6 +1287,10 @@ class Engine(object):
     Once a LookupMapColumn seems no longer used, it's added here. We'll check after recomputing
     everything, and if still unused, will clean it up.
     """
+    table = self.tables.get(lookup_map_column.table_id)
+    if table is not None and lookup_map_column is table._empty_lookup_column:
+      # The key-less lookup map belongs to the table itself (see Table._num_rows) and lives as long as it does.
+      return
     self._unused_lookups.add(lookup_map_column)
 
   def count_rows(self):
